@@ -42,10 +42,24 @@ def _value(arg):
         return np.int64(int(_num(arg['num'])))
     if form == 'np_float':
         return np.float64(_num(arg['num']))
-    if form in ('str', 'str_with_unit'):
+    if form in ('zero',):
+        return 0
+    if form == 'zero_float':
+        return 0.0
+    if form == 'np_i32':
+        return np.int32(int(_num(arg['num'])))
+    if form == 'np_f32':
+        return np.float32(_num(arg['num']))
+    if form in ('str', 'str_with_unit', 'lab1', 'lab2', 'lab3', 'lab4'):
         return arg['str']
     if form in ('true', 'false'):
         return form == 'true'
+    if form == 'np_true':
+        return np.bool_(True)
+    if form == 'tuple_py':
+        return tuple(float(_num(x)) for x in arg['nums'])
+    if form == 'list_int':
+        return [int(_num(x)) for x in arg['nums']]
     if form == 'names_str':
         return list(arg['strs'])
     if form == 'names_obj':
@@ -98,6 +112,10 @@ def _kwargs(case):
         kw['solver'] = {'atol': 1e-9}
     elif gen == 'inlet_flow':
         kw['inlet_gas'] = {'flow_rate': '9 cm3/s'}
+    elif gen == 'simulation_end':
+        kw['simulation'] = {'end_time': '5 s'}
+    elif gen == 'multi_input_T':
+        kw['multi_input'] = {'temperature': [650]}
     return kw
 
 
@@ -148,7 +166,25 @@ def execute(case):
     except core.MachineryError:
         raise
     try:
-        text = write_yaml(**kw)
+        if case.get('to_file'):                           # the file on disk instead of the returned text
+            import os
+            import tempfile
+            d = tempfile.mkdtemp(prefix='c07r_')
+            try:
+                path = os.path.join(d, 'reactor.yaml')
+                ret = write_yaml(filename=path, **kw)
+                with open(path) as fh:
+                    text = fh.read()
+                if ret is not None:
+                    text = None
+                    raise core.MachineryError('write_yaml(filename=...) returned something')
+            finally:
+                import shutil
+                shutil.rmtree(d, ignore_errors=True)
+        else:
+            text = write_yaml(**kw)
+    except core.MachineryError:
+        raise
     except Exception as ex:                               # the library raised on a valid call
         obs['raised'] = type(ex).__name__
         obs['msg'] = str(ex)[:200]
@@ -172,6 +208,8 @@ def supplied(case):
 def tags(case):
     sup = supplied(case)
     t = {'part': 'reactor', 'units': case['units'], 'phases': sup.get('phases', 'omitted')}
+    if case.get('to_file'):
+        t['to_file'] = True
     if case['gen'] != 'none':
         t['gen'] = case['gen']
     others = sorted(set(f for o, f in sup.items() if o != 'phases'))
@@ -215,13 +253,15 @@ def models(ctx):
 def generate(ctx, rnd):
     data, r = core.tlc_cases('MC_ReactorYaml', 'MC_ReactorYaml_cases')
     allc = data[0]
-    for c in allc:
+    for k, c in enumerate(allc):
         c['part'] = 'reactor'
+        if k % 9 == 4:
+            c['to_file'] = True
     ctx.coverage['reactor_tlc_cases'] = len(allc)
     small = [c for c in allc if len(c['args']) != 2]
     pairs = [c for c in allc if len(c['args']) == 2]
     pairs.sort(key=lambda c: json.dumps(c['assign']) + c['units'])
     if ctx.quick:
         rnd.shuffle(pairs)
-        pairs = pairs[:1500]
+        pairs = pairs[:1200]
     return small + pairs
